@@ -272,3 +272,83 @@ def units_C11(tier, seed):
 
 def units_C04(tier, seed):
     return layer_units(tier, ['nn', 'nnfull'])
+
+
+# ------------------------------------------------------------------------------------------------ C03 / C09
+INFO['C03'] = {
+    'bounds': 'linear<probe<N,M>>: identity of the exact reading with the N-linear interpolant for ALL integers i>=0 (<2^40), all real '
+              'a in [0,1)^N and all real lattice values (UF), N=1..4 quick / 1..5 thorough, M=1..4 independently, coordinate and '
+              'stored scalar each float/double; exactly 2^N backend queries at i+bits(n); hull clause solved for N<=2; cell choice '
+              'bit-precise for 0<=x<2^23 (float) / 2^52 (double), N<=3; lattice exactness at the 2^N corners of concrete cells '
+              '(5,7,2,3) with all finite stored values, N<=3 quick / 4 thorough. Rounding clause: op-count bound from the IR '
+              '(fmul/fadd counts reported per unit in fp_ops), not solved.',
+    'outside': 'overflow/underflow/NaN in the rounding clause; non-default rounding modes; stored values that overflow the coordinate precision; N>5',
+    'cuts': 'REAL mode: fptoui/trunc of an input-shaped term i+a rewrite to i (true fact about truncation of non-negative reals); probe backend (UF)',
+    'assumptions': ['IEEE-754 standard model: computed value = exact reading with each operation perturbed by (1+d), |d|<=2^-24/2^-53, barring overflow/underflow'],
+}
+INFO['C09'] = {
+    'bounds': 'algebra::affine N=1..4, float and double, REAL mode (all real matrices/vectors): A*x == Ax+t; (A*B)*v == A*(B*v); '
+              'product matrix == (A_r B_r | A_r t_B + t_A); left-nested products of up to 4 transforms (N<=3) / 3 transforms (N=4); '
+              'translation/scaling/identity exact constants (BITS, all bit patterns); layer affine<probe<N,M>> queries the probe once '
+              'at Ax+t and returns its value, configuration reads back',
+    'outside': 'rounding (reported as op count: N multiplies and N adds per component); products of more than 4 transforms',
+    'cuts': 'REAL mode (exact reading)', 'assumptions': ['exactness over small integers follows from the identity plus exactness of IEEE arithmetic on small integers (stated)'],
+}
+
+
+def units_C03(tier, seed):
+    th = tier == 'thorough'
+    U = []
+    H = 'c03_linear.cpp'
+    pairs = [(n, m) for n in (1, 2, 3, 4) for m in (1, 2, 3, 4)] if th else [(1, 1), (1, 3), (2, 1), (2, 2), (2, 3), (3, 1), (3, 2), (3, 3), (4, 2), (4, 4), (1, 4)]
+    ts = [('float', 'float'), ('double', 'double'), ('float', 'double'), ('double', 'float')]
+    for i, (n, m) in enumerate(pairs):
+        for j, (tc, tst) in enumerate(ts):
+            if not th and j != i % 4 and not (n == 2 and m == 3):
+                continue
+            U += unit(f'c03_identity_{n}_{m}_{tc}_{tst}', H, f'lin_identity_h<{n},{m},{tc},{tst}>()', 'INT',
+                      sites=[1] + [10 + q for q in range(m)], flavours=('rel', 'dbg') if (n, m) == (2, 3) and j == 0 else ('rel',),
+                      diff=(n <= 2 and j == 0), weight=4 ** n, cfg={'query_timeout_ms': 300000})
+    if th:
+        for m, tc, tst in ((1, 'float', 'float'), (5, 'double', 'double'), (2, 'float', 'double')):
+            if m <= 4:
+                U += unit(f'c03_identity_5_{m}_{tc}_{tst}', H, f'lin_identity_h<5,{m},{tc},{tst}>()', 'INT',
+                          sites=[1] + [10 + q for q in range(m)], weight=2000, cfg={'query_timeout_ms': 900000}, timeout=3000)
+    for n in (1, 2):
+        for tc, tst in (('float', 'float'), ('double', 'float'), ('float', 'double')):
+            U += unit(f'c03_range_{n}_{tc}_{tst}', H, f'lin_range_h<{n},{tc},{tst}>()', 'INT', sites=[1], diff=(tc == 'float' and tst == 'float'))
+    for n in ((1, 2, 3) if not th else (1, 2, 3, 4)):
+        for tc in ('float', 'double'):
+            U += unit(f'c03_cell_{n}_{tc}', H, f'lin_cell_h<{n},{tc}>()', 'BITS', sites=[1, 2, 3, 4], diff=(n == 2), weight=30 * n,
+                      cfg={'query_timeout_ms': 300000})
+    lat = [(1, 1, 'float', 'float'), (1, 3, 'double', 'float'), (2, 2, 'float', 'float'), (2, 1, 'float', 'double'), (3, 1, 'float', 'double'), (3, 2, 'double', 'double')]
+    if th:
+        lat += [(4, 1, 'float', 'float'), (3, 3, 'float', 'float'), (2, 4, 'double', 'float')]
+    for n, m, tc, tst in lat:
+        U += unit(f'c03_lattice_{n}_{m}_{tc}_{tst}', H, f'lin_lattice_h<{n},{m},{tc},{tst},5,7,2,3>()', 'BITS', sites=[1],
+                  diff=(n == 2), weight=100 * n, cfg={'query_timeout_ms': 300000}, timeout=1800)
+    if th:
+        U += unit('c03_lattice_origin_2_2', H, 'lin_lattice_h<2,2,float,float,0,0,0,0>()', 'BITS', sites=[1], weight=100)
+    return U
+
+
+def units_C09(tier, seed):
+    th = tier == 'thorough'
+    U = []
+    H = 'c09_affine.cpp'
+    for n in (1, 2, 3, 4):
+        for t in ('float', 'double'):
+            U += unit(f'c09_apply_{n}_{t}', H, f'apply_h<{n},{t}>()', 'INT', sites=[1], diff=(n == 2), flavours=('rel', 'dbg') if n == 2 else ('rel',))
+            U += unit(f'c09_compose_{n}_{t}', H, f'compose_h<{n},{t}>()', 'INT', sites=[1, 2, 3], diff=(n == 2))
+            U += unit(f'c09_factories_{n}_{t}', H, f'factories_h<{n},{t}>()', 'BITS', sites=[1, 2, 3], diff=(n == 3))
+            for ln in (2, 3, 4):
+                if ln == 4 and n == 4 and not th:
+                    continue
+                if t == 'double' and not th and ln != 3:
+                    continue
+                U += unit(f'c09_chain_{ln}_{n}_{t}', H, f'chain_h<{n},{t},{ln}>()', 'INT', sites=[1], diff=(n == 2 and ln == 3), weight=n * ln)
+        for m in ((1, 2, 3, 4) if th else ((n % 4) + 1,)):
+            t = 'float' if (n + m) % 2 else 'double'
+            U += unit(f'c09_layer_{n}_{m}_{t}', H, f'layer_h<{n},{m},{t}>()', 'INT', sites=[1, 2, 3, 4], diff=(n == 2),
+                      flavours=('rel', 'dbg') if n == 3 else ('rel',))
+    return U
